@@ -113,7 +113,7 @@ def evaluate(mod, cases, res: Result, with_model=True):
     return found
 
 
-def shrink(mod, case, still_fails, budget=60):
+def shrink(mod, case, still_fails, budget=25):
     """Greedy minimisation with the shrinking candidates the property module offers."""
     best = case
     t0 = time.time()
@@ -194,7 +194,7 @@ def run_property(mod, tier: str, seed: int, replay: str | None = None) -> int:
         mo = core.run_model([mc])[0]
         return "error" in mo or bool(mod.diff(c, mo["ok"], io))
 
-    for c, kind, fails, io, mo in oracle_found[:5]:
+    for c, kind, fails, io, mo in oracle_found[:2]:
         sig = fails[0].split(":")[0]
         kf = [k for k in known if k.get("signature") == sig and mod.matches_known(k, c)]
         if kf:
